@@ -54,6 +54,7 @@ def run(ck):
     ck.rule("C03.R5", "enter/exit pairing of guards, incl. unwinding", floor=6)
     ck.rule("C03.R6", "enter guards are !Send", floor=2)
     ck.rule("C03.R7", "Instrumented: span entered around every inner poll and the inner drop", floor=4)
+    ck.rule("C03.R9", "collector wrappers (Box, Arc, Layered, fmt::Collector, ...) forward every span lifecycle method (as C09.R1/R2)", floor=40)
     ck.rule("C03.R8", "a disabled span macro reaches no collector call (expansion fixtures)", floor=60)
     r1_r2(ck, F)
     r3(ck, F)
@@ -62,6 +63,11 @@ def run(ck):
     r6(ck, F)
     r7(ck, F)
     r8(ck, F)
+    # a handle's clone/close/enter/exit reach the collector that issued the id only if every collector wrapper in between
+    # forwards them (C09.R1/R2 restricted to the lifecycle methods, instantiated here)
+    from rules import C09
+    C09.wrapper_rules(ck, F, rids={"R0": "C03.R9", "R1": "C03.R9", "R2": "C03.R9", "R3": "C03.R9"}, traits=["tracing_core::collect::Collect"],
+                      only={"new_span", "clone_span", "try_close", "drop_span", "enter", "exit", "record", "record_follows_from", "current_span"})
 
 
 def r1_r2(ck, F):
